@@ -4,6 +4,7 @@ CONSTANTS
   MaxNodes = 30
   MaxDepth = 4
   MinNodes = 12
+  MaxFaults = 0
   MaxComps = 6
 INVARIANTS TypeOK WF MandatoryEdgesGoBack Emit
 CHECK_DEADLOCK FALSE
